@@ -435,6 +435,38 @@ def handle(req):
             except BaseException as ex:
                 out.append({"error": f"{type(ex).__name__}: {str(ex)[:200]}"})
         return {"results": out}
+    if op == "infer_or":
+        # infer_or_gate_from_node on the root / get_extended_or_gates_from_process_tree on the whole tree
+        from tel2puml.events import EventSet
+        from tel2puml.logic_detection import (infer_or_gate_from_node, get_extended_or_gates_from_process_tree,
+                                              Operator)
+        from pm4py.objects.process_tree.obj import ProcessTree
+        OPS = {"+": Operator.PARALLEL, "O": Operator.OR, "X": Operator.XOR, "->": Operator.SEQUENCE}
+        def build(t, parent=None):
+            if t is None:
+                return ProcessTree(parent=parent)
+            if isinstance(t, str):
+                return ProcessTree(label=t, parent=parent)
+            n = ProcessTree(OPS[t[0]], parent, [])
+            n.children = [build(c, n) for c in t[1:]]
+            return n
+        def dump(n):
+            if n.operator is None:
+                return n.label
+            o = n.operator.value
+            return [{"+": "+", "O": "O", "X": "X"}.get(o, "?")] + [dump(c) for c in n.children]
+        out = []
+        for sets, tree in req["inputs"]:
+            es = {EventSet(list(x)) for x in sets}
+            try:
+                a = build(tree)
+                infer_or_gate_from_node(es, a)
+                b = build(tree)
+                get_extended_or_gates_from_process_tree(es, b)
+                out.append({"node": dump(a), "all": dump(b)})
+            except BaseException as ex:
+                out.append({"error": f"{type(ex).__name__}: {str(ex)[:160]}"})
+        return {"results": out}
     if op == "cover":
         # utils.get_weighted_cover on a batch of (event sets, universe); None / the cover as sorted lists
         from tel2puml.utils import get_weighted_cover
